@@ -355,6 +355,29 @@ HCmd(s, op, n) ==
                         /\ hret' = [hret EXCEPT ![s] = TRUE] /\ hsent' = [hsent EXCEPT ![s] = TRUE]
                         /\ UNCHANGED hk
 
+\* A handler Read and the client's RST_STREAM for the same stream race: the handler has taken n
+\* octets out of the body pipe (RequestBody.Read) but its body-read note (noteBodyReadFromHandler)
+\* reaches the serve loop at the same time as the RST_STREAM frame; the loop's select decides
+\* which is handled first.  Either way every accepted octet goes back to the connection window:
+\* noteBodyRead returns n (connection level; stream level only while the stream is open),
+\* closeStream returns what is still buffered.
+RaceReadRst(s, k, c, noteFirst) ==
+  LET n == Min(k, RunsLen(buf[s]))
+      ehc == [E0 EXCEPT !.ev = "hc", !.s = s, !.op = "read", !.n = k]
+      erst == [E0 EXCEPT !.ev = "c", !.k = "RST", !.s = s, !.code = c]
+      eh == [E0 EXCEPT !.ev = "h", !.s = s, !.op = "read", !.n = n, !.runs = TakeRuns(buf[s], n)]
+      taken == [Cur EXCEPT !.buf[s] = DropRuns(@, n)]
+      note(d) == [d EXCEPT !.inC = @ + n, !.ctl = Append(@, [Fr("WU", 0) EXCEPT !.inc = n]),
+                           !.sq[s] = IF d.st[s] = "open" THEN Append(@, Q([Fr("WU", s) EXCEPT !.inc = n], FALSE)) ELSE @] IN
+  /\ Stimulus /\ Want("RACE") /\ "RACE" \in CKinds
+  /\ hs[s] = "idle" /\ InMap(s) /\ ~bclosed[s] /\ n > 0
+  /\ p' = PHandler(PClient(PHcmd(p, ehc), erst), eh)
+  /\ After([E0 EXCEPT !.ev = "race", !.k = "RACE", !.s = s, !.n = k, !.code = c]) /\ UNCHANGED holdM
+  /\ inS' = IF noteFirst /\ st[s] = "open" THEN [inS EXCEPT ![s] = @ + n] ELSE inS
+  /\ Apply(IF noteFirst THEN CloseStream(note(taken), s) ELSE note(CloseStream(taken, s)))
+  /\ UNCHANGED <<maxId, clM, bodyM, bclosed, outC, outS, iwsM, mfsM, needAck, hk, hsent, hret, sent,
+                 mineM, tag, ndata, nhdrs>>
+
 Running == turn = "run" /\ conn = "up"
 
 HStart(s) ==
@@ -480,6 +503,7 @@ StimNext ==
   \/ \E s \in SidsUsed, r \in Trailers, es \in ESs : InMap(s) /\ ClientHeaders(s, r, es, -1)
   \/ \E s \in SidsUsed, L \in DataLens, pad \in Pads, es \in ESs : ClientData(s, L, pad, es)
   \/ \E s \in SidsUsed, c \in RstCodes : ClientRst(s, c)
+  \/ \E s \in SidsUsed, k \in ReadLens, c \in RstCodes, nf \in BOOLEAN : RaceReadRst(s, k, c, nf)
   \/ \E s \in SidsUsed \cup {0}, inc \in WuIncs : ClientWu(s, inc)
   \/ \E iws \in IwsVals, mfs \in MfsVals : (iws # -1 \/ mfs # -1) /\ ClientSettings(iws, mfs)
   \/ ClientPing
